@@ -30,6 +30,7 @@ import (
 	"verif/core"
 	"verif/gen"
 	"verif/pdfobs"
+	"verif/simclock"
 	"verif/simsched"
 )
 
@@ -119,6 +120,8 @@ type Batch struct {
 
 func runSchedule(spec RunSpec, pool string, first bool) (*RunResult, int) {
 	runtime.VerifSetMapRand(spec.Seed) // map seeds and walk orders are part of the schedule
+	simclock.Install(spec.Seed)         // and so is the time the tasks read
+	defer simclock.Uninstall()
 	work, err := os.MkdirTemp(os.Getenv("VERIF_SCRATCH"), "c40-")
 	if err != nil {
 		fmt.Fprintln(os.Stderr, err)
